@@ -3,19 +3,28 @@
 Sub-checks / keys:
   C07:gamma_pl_num             LensSampleLikelihood.gamma_pl_num == number of lenses whose kin_scaling_param_list has gamma_pl
                                (0 when the slope is sampled globally); CosmoLikelihood.param has exactly that many gamma_pl_i
-  C07:additivity               sharp: sample value == sum of single-lens samples (each alone, own slope, merged settings)
+  C07:additivity               sharp: sample value == sum of single-lens samples (each alone, own slope, merged settings,
+                               every evaluation with a FRESH deep copy of the hyper-parameter dictionaries)
+  C07:additivity:sys_error_multi_lens   the same when kwargs_kin carries a non-zero "sigma_v_sys_error" and a kinematic lens built
+                               with sigma_sys_error_include=True is NOT first in the list (stream 4 guarantees >= 2 such lenses;
+                               stream 1 mixes them in at random; stream 3 does it through CosmoLikelihood, sigma_v_systematics=True)
+  C07:permutation:sys_error_multi_lens  re-ordering invariance for those samples
+  C07:caller_dict_mutated      kwargs_lens / kwargs_kin / kwargs_source / kwargs_los handed to LensSampleLikelihood.log_likelihood or
+                               LensLikelihood.lens_log_likelihood are deep-equal to a snapshot taken before the call
   C07:additivity_scatter       seeded scatter: sample value == sum of its lens terms evaluated in order on the same stream
   C07:permutation              invariant under re-ordering the lens list with the slopes re-ordered accordingly
   C07:merge:<what>             lens object of the sample behaves as LensLikelihood(**{whitelisted global, **lens}):
                                override (lens key beats global), non_whitelisted (global mst_ifu/prior_list/... ignored),
                                static (the dict returned by _merge_global2local_settings)
   C07:interference:<clause>    other_slope | lambda_ifu_on_non_ifu | lambda_mst_on_ifu | los_other_population |
-                               los_unassigned | sne_on_non_mag | anisotropy_without_scaling | sigma_v_sys_on_non_kin :
+                               los_unassigned | sne_on_non_mag | anisotropy_without_scaling | sigma_v_sys_on_non_kin |
+                               sigma_v_sys_without_include (kinematic lens built without sigma_sys_error_include) :
                                exact equality (==) of the lens term when an inapplicable hyper-parameter changes
   C07:num_data:<Type>, C07:num_data:sum    integer data count per type (all 14) and its sum over the sample
   C07:terms:sne|kde|prior|all|none   CosmoLikelihood.likelihood == lens part + SNe + KDE-chain + custom prior, each term
                                equal to an independent reference and present iff switched on
   C07:prior_kwargs             custom_prior receives the five kwargs of args2kwargs
+  C07:terms:sys_error_param    args2kwargs yields kwargs_kin["sigma_v_sys_error"] iff sigma_v_systematics is switched on
   C07:raises:<where>           hierArc raised on a valid configuration
 """
 import os
@@ -133,16 +142,47 @@ def val(x):
     return fscalar(x)
 
 
+def deq(a, b):
+    """deep equality of hyper-parameter containers (dict / list / ndarray / scalars)"""
+    if isinstance(a, dict):
+        return isinstance(b, dict) and set(a.keys()) == set(b.keys()) and all(deq(a[k], b[k]) for k in a)
+    if isinstance(a, (list, tuple)):
+        return type(a) == type(b) and len(a) == len(b) and all(deq(x, y) for x, y in zip(a, b))
+    if isinstance(a, np.ndarray) or isinstance(b, np.ndarray):
+        return isinstance(a, np.ndarray) and isinstance(b, np.ndarray) and a.shape == b.shape and bool(np.array_equal(a, b))
+    return type(a) == type(b) and a == b
+
+
+def sys_key(base, sys_multi):
+    return base + (":sys_error_multi_lens" if sys_multi else "")
+
+
 def run_sample(rec, case):
     rng = rng_case(case)
+    rng2 = rng_case(list(case) + [7])     # choices of the systematic-error extension: own stream, the older draws stay as they were
+    sysmode = int(case[1]) == 4           # stream 4: >= 2 kinematic lenses with the sampled systematic error, not all of them first
     gm, gm_extra = gen_global(rng)
     gm_all = {**gm, **gm_extra}
     nl = int(rng.integers(1, 7))
     force = TYPES[int(case[2]) % len(TYPES)]          # every type appears regularly
-    built = [mklens(i, rng, gm, force_type=force if i == 0 else None) for i in range(nl)]
+    forced = {0: force}
+    sys_pos = []
+    if sysmode:
+        nl = max(nl, 2)
+        sys_pos = sorted(int(x) for x in rng2.choice(nl, int(rng2.integers(2, nl + 1)), replace=False))
+        for q in sys_pos: forced[q] = str(rng2.choice(KIN_TYPES))
+    built = [mklens(i, rng, gm, force_type=forced.get(i)) for i in range(nl)]
     lenses = [b[0] for b in built]
+    # sigma_sys_error_include: the kinematic covariance gets + outer(sigma_v * sigma_v_sys_error); sampled with sigma_v_systematics
+    p_inc = 0.6 if (sysmode or rng2.random() < 0.4) else 0.0
+    for i, l in enumerate(lenses):
+        if l["likelihood_type"] in KIN_TYPES:
+            r = rng2.random()
+            if i in sys_pos or r < p_inc: l["sigma_sys_error_include"] = True
+            elif r > 0.9: l["sigma_sys_error_include"] = False
+    sys_inc = [bool(l.get("sigma_sys_error_include", False)) for l in lenses]
     normalized = bool(rng.random() < 0.5)
-    descr = dict(case=list(case), types=[l["likelihood_type"] for l in lenses], scaling=[b[1] for b in built],
+    descr = dict(case=list(case), types=[l["likelihood_type"] for l in lenses], scaling=[b[1] for b in built], sys_include=sys_inc,
                  mst_ifu=[bool(l.get("mst_ifu", False)) for l in lenses], los=[l.get("global_los_distribution", "unset") for l in lenses],
                  overrides=[{k: l[k] for k in WHITELIST if k in l} for l in lenses], global_model=gm, global_extra=sorted(gm_extra),
                  normalized=normalized)
@@ -166,12 +206,28 @@ def run_sample(rec, case):
     kk = dict(a_ani=float(rng.uniform(0.7, 1.8)), a_ani_sigma=0.0)
     ks = dict(mu_sne=float(rng.uniform(18.5, 20)), sigma_sne=0.0, z_apparent_m_anchor=0.1)
     klos = [dict(mean=float(rng.uniform(-0.05, 0.05)), sigma=0.0), dict(mean=float(rng.uniform(-0.05, 0.05)), sigma=0.0)]
+    r = rng2.random()
+    if sysmode or (any(sys_inc) and r < 0.85) or r < 0.08:
+        kk["sigma_v_sys_error"] = float(rng2.uniform(0.03, 0.25))
+    # the class of inputs where a lens that uses the systematic error is evaluated after another lens of the same sample
+    sys_multi = bool(kk.get("sigma_v_sys_error")) and any(sys_inc[1:])
+    if sys_multi: rec.tally("sys_error_multi_lens:n_sys=%d" % min(sum(sys_inc), 3))
     hyper = dict(kwargs_lens=kl, kwargs_kin=kk, kwargs_source=ks, kwargs_los=klos)
-    inp = dict(descr, hyper=hyper)
+    inp = dict(descr, hyper=copy.deepcopy(hyper))
 
     def call(obj, **over):
-        h = dict(hyper); h.update(over)
-        return val(obj.log_likelihood(C, **h)) if isinstance(obj, LensSampleLikelihood) else val(obj.lens_log_likelihood(C, **h))
+        # every evaluation gets a FRESH deep copy of the dictionaries (an evaluation must not see what an earlier one did to
+        # them) and the copy is compared with a snapshot afterwards: the caller's dictionaries are inputs, not scratch space
+        h = copy.deepcopy(dict(hyper, **over))
+        snap = copy.deepcopy(h)
+        is_sample = isinstance(obj, LensSampleLikelihood)
+        v = val(obj.log_likelihood(C, **h)) if is_sample else val(obj.lens_log_likelihood(C, **h))
+        if not deq(h, snap):
+            bad = [k for k in snap if not deq(h[k], snap[k])]
+            rec.violation("C07:caller_dict_mutated", "the hyper-parameter dictionaries of the caller were modified by the evaluation: " + ", ".join(bad),
+                          dict(inp, where="LensSampleLikelihood.log_likelihood" if is_sample else "LensLikelihood.lens_log_likelihood(%s)" % obj.name,
+                               changed=over), {k: h[k] for k in bad}, {k: snap[k] for k in bad})
+        return v
 
     try:
         tot = call(S)
@@ -198,7 +254,7 @@ def run_sample(rec, case):
             parts.append(call(S1, kwargs_lens=kl1))
         ssum = 0
         for p in parts: ssum = ssum + p
-        rec.check(tot == ssum or abs(tot - ssum) <= 1e-13 * scale, "C07:additivity", "sample value is not the sum of the lenses evaluated alone",
+        rec.check(tot == ssum or abs(tot - ssum) <= 1e-13 * scale, sys_key("C07:additivity", sys_multi), "sample value is not the sum of the lenses evaluated alone",
                   dict(inp, parts=parts), tot, ssum)
     except Exception as e:
         rec.violation("C07:raises:single_lens_sample", "raised %r" % (e,), inp, traceback.format_exc(limit=3))
@@ -211,7 +267,17 @@ def run_sample(rec, case):
         if npl: klp["gamma_pl_list"] = [slope_of[i] for i in p if hs[i]]
         totp = call(Sp, kwargs_lens=klp)
         # different summation order: rounding of nl additions
-        rec.check(abs(tot - totp) <= 1e-12 * scale, "C07:permutation", "value changes under re-ordering of the lens list", dict(inp, perm=p), totp, tot)
+        rec.check(abs(tot - totp) <= 1e-12 * scale, sys_key("C07:permutation", sys_multi), "value changes under re-ordering of the lens list", dict(inp, perm=p), totp, tot)
+        if sys_multi and nl <= 4:
+            # every lens once in first position (a term that depends on what was evaluated before it shows for some rotation)
+            for sft in range(1, nl):
+                q = [(i + sft) % nl for i in range(nl)]
+                Sq = LensSampleLikelihood([lenses[i] for i in q], normalized=normalized, kwargs_global_model=gm_all)
+                klq = dict(kl)
+                if npl: klq["gamma_pl_list"] = [slope_of[i] for i in q if hs[i]]
+                totq = call(Sq, kwargs_lens=klq)
+                rec.check(abs(tot - totq) <= 1e-12 * scale, "C07:permutation:sys_error_multi_lens", "value changes under rotation of the lens list",
+                          dict(inp, perm=q), totq, tot)
     except Exception as e:
         rec.violation("C07:raises:permuted_sample", "raised %r" % (e,), inp, traceback.format_exc(limit=3))
 
@@ -294,6 +360,8 @@ def run_sample(rec, case):
             clause("anisotropy_without_scaling", kwargs_kin=dict(kk, a_ani=kk["a_ani"] * 0.6 + 0.1))
         if t not in KIN_TYPES:
             clause("sigma_v_sys_on_non_kin", kwargs_kin=dict(kk, sigma_v_sys_error=0.2))
+        elif not sys_inc[i]:
+            clause("sigma_v_sys_without_include", kwargs_kin=dict(kk, sigma_v_sys_error=0.31))
 
     # ---- number of data points
     try:
@@ -423,7 +491,18 @@ def run_slopes_param(rec, case):
               kwargs_lower_lens=dict(lambda_mst=0, gamma_pl_list=[1.5] * npl), kwargs_upper_lens=dict(lambda_mst=2, gamma_pl_list=[2.5] * npl))
     gl = [float(x) for x in rng.uniform(1.7, 2.3, npl)]
     args = [float(rng.uniform(62, 78)), float(rng.uniform(0.25, 0.35)), float(rng.uniform(0.95, 1.05))] + gl
-    inp = dict(case=list(case), types=[l["likelihood_type"] for l in lenses], has_slope=hs, args=args)
+    # sampled systematic velocity-dispersion error (own random stream; the older draws stay as they were)
+    rng2 = rng_case(list(case) + [7])
+    sys_sampled = bool(rng2.random() < 0.6)
+    if sys_sampled:
+        gm["sigma_v_systematics"] = True
+        kb.update(kwargs_lower_kin=dict(sigma_v_sys_error=0.0), kwargs_upper_kin=dict(sigma_v_sys_error=1.0))
+        for l in lenses:
+            if l["likelihood_type"] in KIN_TYPES and rng2.random() < 0.8: l["sigma_sys_error_include"] = True
+        args = args + [float(rng2.uniform(0.03, 0.25))]
+    sys_inc = [bool(l.get("sigma_sys_error_include", False)) for l in lenses]
+    sys_multi = sys_sampled and any(sys_inc[1:])
+    inp = dict(case=list(case), types=[l["likelihood_type"] for l in lenses], has_slope=hs, args=args, sys_include=sys_inc, sys_sampled=sys_sampled)
     rec.case(inp, kind="slopes_param:n=%d" % npl)
     try:
         cl = CosmoLikelihood(lenses, "FLCDM", gm, kb, interpolate_cosmo=True, num_redshift_interp=100)
@@ -438,16 +517,20 @@ def run_slopes_param(rec, case):
             kl1 = dict(lambda_mst=kl["lambda_mst"])
             if hs[i]:
                 kl1["gamma_pl_list"] = [gl[j]]; j += 1
-            S1 = LensSampleLikelihood([l], normalized=False, kwargs_global_model=gm)
-            acc += fscalar(S1.log_likelihood(C, kwargs_lens=kl1, kwargs_kin=kk, kwargs_source=ks, kwargs_los=klos))
-        rec.check(abs(v - acc) <= 1e-12 * (abs(acc) + 1), "C07:additivity", "CosmoLikelihood.likelihood: j-th sampled slope does not go to the j-th slope lens",
-                  inp, v, acc)
+            # CosmoLikelihood switches to the normalised likelihoods when the systematic error is sampled (the determinant depends on it)
+            S1 = LensSampleLikelihood([l], normalized=sys_sampled, kwargs_global_model=gm)
+            acc += fscalar(S1.log_likelihood(C, kwargs_lens=kl1, kwargs_kin=copy.deepcopy(kk), kwargs_source=copy.deepcopy(ks), kwargs_los=copy.deepcopy(klos)))
+        rec.check(sys_sampled == ("sigma_v_sys_error" in kk), "C07:terms:sys_error_param", "sigma_v_systematics does not produce the kinematic hyper-parameter sigma_v_sys_error",
+                  inp, sorted(kk), "sigma_v_sys_error present iff sigma_v_systematics")
+        rec.check(abs(v - acc) <= 1e-12 * (abs(acc) + 1), sys_key("C07:additivity", sys_multi),
+                  "CosmoLikelihood.likelihood is not the sum of the lenses evaluated alone (j-th sampled slope to the j-th slope lens, the sampled "
+                  "systematic error to every lens that includes it)", inp, v, acc)
     except Exception as e:
         rec.violation("C07:raises:CosmoLikelihood", "raised %r" % (e,), inp, traceback.format_exc(limit=4))
 
 
-STREAMS = {1: run_sample, 2: run_terms, 3: run_slopes_param}
-COUNTS = {"quick": {1: 280, 2: 60, 3: 60}, "thorough": {1: 4200, 2: 700, 3: 700}}
+STREAMS = {1: run_sample, 2: run_terms, 3: run_slopes_param, 4: run_sample}   # 4: run_sample in its systematic-error mode
+COUNTS = {"quick": {1: 280, 2: 60, 3: 60, 4: 90}, "thorough": {1: 4200, 2: 700, 3: 700, 4: 1400}}
 
 
 def main():
